@@ -40,6 +40,7 @@ Qed.
 Lemma inv_pass T R p c : Inv T c -> Inv T (pass R p c).
 Proof.
   intros I. destruct p as [[now a] cap]. unfold pass. destruct (closed c); [exact I|].
+  destruct (is_wind a); [now apply inv_refresh|].
   destruct ((0 <? tmo c) && expired now c); [apply inv_close|].
   set (c1 := if has_traffic a then refresh now c else c).
   assert (I1 : Inv T c1) by (unfold c1; destruct (has_traffic a); [now apply inv_refresh|exact I]).
@@ -72,10 +73,11 @@ Proof. unfold requests. destruct (responding c); [reflexivity|]. destruct a; ref
 (* the ghost [last] is the tyme of the latest pass in which bytes actually moved *)
 Lemma last_pass_open R p c :
   closed (pass R p c) = false ->
-  last (pass R p c) = if moved R p c then fst (fst p) else last c.
+  last (pass R p c) = if moved R p c || is_wind (snd (fst p)) then fst (fst p) else last c.
 Proof.
-  destruct p as [[now a] cap]. unfold pass, moved. cbn [fst].
+  destruct p as [[now a] cap]. unfold pass, moved. cbn [fst snd].
   destruct (closed c) eqn:Ec; [intros H; congruence|].
+  destruct (is_wind a) eqn:Ew; [intros _; reflexivity|]. cbn [negb andb]. rewrite orb_false_r.
   destruct ((0 <? tmo c) && expired now c); [intros H; discriminate H|].
   destruct (has_traffic a) eqn:Ht; cbn [orb].
   - rewrite requests_refresh_pend, requests_refresh_resp.
@@ -104,7 +106,7 @@ Lemma pend_blocked R p c :
   blocked p = true -> closed (pass R p c) = false -> pend (pass R p c) = pend c.
 Proof.
   destruct p as [[now a] cap]. unfold blocked. destruct a; try discriminate.
-  intros H. apply N.eqb_eq in H. subst cap. unfold pass. cbn [has_traffic].
+  intros H. apply N.eqb_eq in H. subst cap. unfold pass. cbn [has_traffic is_wind].
   destruct (closed c); [reflexivity|].
   destruct ((0 <? tmo c) && expired now c); [intros H; discriminate H|].
   unfold requests. replace (if responding c then c else c) with c by (destruct (responding c); reflexivity).
@@ -120,13 +122,15 @@ Proof.
   assert (Eo : closed (pass R p c) = false).
   { destruct (closed (pass R p c)) eqn:E; [|reflexivity]. rewrite closed_run in Ho by exact E. congruence. }
   destruct (IH _ Hr Ho) as [H1 H2]. rewrite H1, H2. split.
-  - rewrite last_pass_open by exact Eo. now rewrite moved_blocked.
+  - rewrite last_pass_open by exact Eo. rewrite moved_blocked by exact Hp.
+    destruct p as [[now a] cap]. destruct a; try discriminate Hp. reflexivity.
   - now apply pend_blocked.
 Qed.
 
 Lemma persisted_pass R p c : is_req (snd (fst p)) = false -> persisted (pass R p c) = persisted c.
 Proof.
   destruct p as [[now a] cap]. cbn [fst snd]. intros H. unfold pass. destruct (closed c); [reflexivity|].
+  destruct (is_wind a); [reflexivity|].
   destruct ((0 <? tmo c) && expired now c); [reflexivity|].
   set (c1 := if has_traffic a then refresh now c else c).
   assert (H1 : persisted c1 = persisted c) by (unfold c1; destruct (has_traffic a); reflexivity).
@@ -146,28 +150,28 @@ Qed.
    moved since tyme u = last c (its latest receive or successful send, or the accept) is closed
    by any service pass at a tyme >= u + T, whatever happened before and whatever is pending *)
 Theorem closes T t0 R sched now a cap :
-  0 < T -> no_req sched = true ->
+  0 < T -> no_req sched = true -> is_wind a = false ->
   let c := run R (accept T t0) sched in
   last c + T <= now -> closed (pass R (now, a, cap) c) = true.
 Proof.
-  intros HT Hn c Hl.
+  intros HT Hn Hw c Hl.
   destruct (closed c) eqn:Ec; [now rewrite closed_pass|].
   assert (I : Inv T c) by apply inv_run, inv_accept.
   assert (Hp : persisted c = false) by (unfold c; now rewrite persisted_run).
   destruct (I Ec) as [I1 _]. destruct (I1 Hp) as (H1 & H2 & _).
-  unfold pass. rewrite Ec.
+  unfold pass. rewrite Ec, Hw.
   assert (E : (0 <? tmo c) && expired now c = true).
   { unfold expired. apply andb_true_iff. split; lia. }
   now rewrite E.
 Qed.
 
 Theorem closes_for_good T t0 R sched now a cap rest :
-  0 < T -> no_req sched = true ->
+  0 < T -> no_req sched = true -> is_wind a = false ->
   last (run R (accept T t0) sched) + T <= now ->
   closed (run R (accept T t0) (sched ++ (now, a, cap) :: rest)) = true.
 Proof.
-  intros HT Hn Hl. rewrite run_app. simpl.
-  pose proof (closes T t0 R sched now a cap HT Hn Hl) as H.
+  intros HT Hn Hw Hl. rewrite run_app. simpl.
+  pose proof (closes T t0 R sched now a cap HT Hn Hw Hl) as H.
   now rewrite closed_run.
 Qed.
 
@@ -185,17 +189,17 @@ Qed.
    accepts nothing, the pass at tyme >= last + T closes the connection, and until then
    neither the deadline reference nor the pending output changed *)
 Theorem closes_blocked T t0 R sched quiet now a cap :
-  0 < T -> no_req sched = true -> forallb blocked quiet = true ->
+  0 < T -> no_req sched = true -> forallb blocked quiet = true -> is_wind a = false ->
   let c := run R (accept T t0) sched in
   last c + T <= now ->
   closed (pass R (now, a, cap) (run R c quiet)) = true /\
   (closed (run R c quiet) = false -> last (run R c quiet) = last c /\ pend (run R c quiet) = pend c).
 Proof.
-  intros HT Hn Hb c Hl. split; [|now apply blocked_run].
+  intros HT Hn Hb Hw c Hl. split; [|now apply blocked_run].
   destruct (closed (run R c quiet)) eqn:Ec; [now rewrite closed_pass|].
   destruct (blocked_run R quiet c Hb Ec) as [H1 _].
   unfold c in *. rewrite <- run_app in *.
-  apply closes; [exact HT| |lia].
+  apply closes; [exact HT| |exact Hw|lia].
   rewrite no_req_app, Hn. now apply blocked_no_req.
 Qed.
 
@@ -211,7 +215,8 @@ Proof.
   destruct (closed c) eqn:Ec.
   { rewrite closed_pass by exact Ec. rewrite closed_run by exact Ec. exact Et. }
   apply IH; [|now apply inv_pass|exact B2].
-  destruct p as [[now a] cap]. cbn [fst] in B1. specialize (B1 eq_refl). unfold pass. rewrite Ec.
+  destruct p as [[now a] cap]. cbn [fst snd] in B1. specialize (B1 eq_refl). unfold pass. rewrite Ec.
+  destruct (is_wind a) eqn:Ew; [exact Et|]. specialize (B1 eq_refl).
   destruct (I Ec) as [I1 I2].
   assert (E : (0 <? tmo c) && expired now c = false).
   { destruct (persisted c) eqn:Ep.
@@ -244,6 +249,7 @@ Proof. intros B. apply safe. eapply busy_app, B. Qed.
 Lemma tmo_pass_le R p c : tmo c <= 0 -> tmo (pass R p c) <= 0.
 Proof.
   intros H. destruct p as [[now a] cap]. unfold pass. destruct (closed c); [exact H|].
+  destruct (is_wind a); [exact H|].
   destruct ((0 <? tmo c) && expired now c); [exact H|].
   set (c1 := if has_traffic a then refresh now c else c).
   assert (H1 : tmo c1 <= 0) by (unfold c1; destruct (has_traffic a); exact H).
@@ -255,6 +261,7 @@ Qed.
 Lemma timedout_pass_le R p c : tmo c <= 0 -> timedout c = false -> timedout (pass R p c) = false.
 Proof.
   intros H Et. destruct p as [[now a] cap]. unfold pass. destruct (closed c); [exact Et|].
+  destruct (is_wind a); [exact Et|].
   replace (0 <? tmo c) with false by lia. cbn [andb].
   set (c1 := if has_traffic a then refresh now c else c).
   assert (H1 : timedout c1 = false) by (unfold c1; destruct (has_traffic a); exact Et).
@@ -283,17 +290,21 @@ Proof.
 Qed.
 
 (* ---------- "traffic in every window", stated with witnesses ---------- *)
+(* pass tymes do not go backwards, except that a wind starts a new time base *)
 Fixpoint sorted_from (t : Z) (sched : list step) : Prop :=
   match sched with
   | [] => True
-  | p :: r => t <= fst (fst p) /\ sorted_from (fst (fst p)) r
+  | p :: r => (is_wind (snd (fst p)) = false -> t <= fst (fst p)) /\ sorted_from (fst (fst p)) r
   end.
-(* for every pass there is an earlier receive tyme (or the accept) less than T before it *)
+(* for every pass there is an earlier receive tyme (or the accept, or the latest wind) on the time
+   base in force less than T before it *)
 Fixpoint windowed (T : Z) (seen : list Z) (sched : list step) : Prop :=
   match sched with
   | [] => True
-  | p :: r => (exists u, In u seen /\ fst (fst p) - u < T) /\
-              windowed T (if has_traffic (snd (fst p)) then fst (fst p) :: seen else seen) r
+  | p :: r =>
+    if is_wind (snd (fst p)) then windowed T [fst (fst p)] r
+    else (exists u, In u seen /\ fst (fst p) - u < T) /\
+         windowed T (if has_traffic (snd (fst p)) then fst (fst p) :: seen else seen) r
   end.
 
 Lemma busy_closed R T sched : forall c, closed c = true -> busy R T c sched.
@@ -302,23 +313,33 @@ Proof.
   split; [intros E; congruence|]. rewrite closed_pass by exact H. now apply IH.
 Qed.
 
-Lemma moved_traffic R p c : has_traffic (snd (fst p)) = true -> moved R p c = true.
-Proof. destruct p as [[now a] cap]. cbn. intros ->. reflexivity. Qed.
+Lemma moved_traffic R p c :
+  is_wind (snd (fst p)) = false -> has_traffic (snd (fst p)) = true -> moved R p c = true.
+Proof. destruct p as [[now a] cap]. cbn. intros -> ->. reflexivity. Qed.
 
 Lemma windowed_busy R T sched : forall c lo seen,
   (forall u, In u seen -> u <= last c) -> last c <= lo -> sorted_from lo sched -> windowed T seen sched ->
   busy R T c sched.
 Proof.
   induction sched as [|p r IH]; intros c lo seen Hs Hlo So W; simpl in *; [exact I|].
-  destruct So as [S1 S2]. destruct W as [[u [Hu Hw]] W2]. split.
-  - intros _. specialize (Hs u Hu). lia.
-  - destruct (closed (pass R p c)) eqn:Eo; [now apply busy_closed|].
-    pose proof (last_pass_open R p c Eo) as Hl.
-    apply (IH _ (fst (fst p)) (if has_traffic (snd (fst p)) then fst (fst p) :: seen else seen)); auto.
-    + intros v Hv. rewrite Hl. destruct (has_traffic (snd (fst p))) eqn:Ht.
-      * rewrite moved_traffic by exact Ht. destruct Hv as [<-|Hv]; [lia|]. specialize (Hs v Hv). lia.
-      * specialize (Hs v Hv). destruct (moved R p c); lia.
-    + rewrite Hl. destruct (moved R p c); lia.
+  destruct So as [S1 S2].
+  destruct (closed (pass R p c)) eqn:Eo.
+  { split; [|now apply busy_closed].
+    intros Ec Ew. rewrite Ew in W. destruct W as [[u [Hu Hw]] _]. specialize (Hs u Hu). lia. }
+  pose proof (last_pass_open R p c Eo) as Hl.
+  destruct (is_wind (snd (fst p))) eqn:Ew.
+  - split; [intros _ E; discriminate E|].
+    rewrite orb_true_r in Hl.
+    apply (IH _ (fst (fst p)) [fst (fst p)]); auto.
+    + intros v [<-|[]]. lia.
+    + lia.
+  - destruct W as [[u [Hu Hw]] W2]. specialize (S1 eq_refl). rewrite orb_false_r in Hl. split.
+    + intros _ _. specialize (Hs u Hu). lia.
+    + apply (IH _ (fst (fst p)) (if has_traffic (snd (fst p)) then fst (fst p) :: seen else seen)); auto.
+      * intros v Hv. rewrite Hl. destruct (has_traffic (snd (fst p))) eqn:Ht.
+        -- rewrite moved_traffic by assumption. destruct Hv as [<-|Hv]; [lia|]. specialize (Hs v Hv). lia.
+        -- specialize (Hs v Hv). destruct (moved R p c); lia.
+      * rewrite Hl. destruct (moved R p c); lia.
 Qed.
 
 Theorem safe_windows T t0 R sched :
